@@ -55,6 +55,9 @@ func checkC08(p *Prog, l *Ledger) {
 		}
 		// what is a comment or a string (and therefore not program text) is part of "accepted iff derivable"
 		checkExtents(p, l, run.m.G, "C08/S7-lexical-extents")
+		// the line a diagnostic names is the line its token carries: tokens are created only by AddToken with the
+		// scanner's own line, and every consumed newline is counted exactly once (rules of C09)
+		l.AsOnly(map[string]string{"C09/S0-": "C08/S5-position/token-lines/", "C09/S1-": "C08/S5-position/token-lines/", "C09/S4-": "C08/S5-position/token-lines/"}, func() { checkC09(p, l) })
 	}
 	if ok, why := parserCursorLemma(p); ok {
 		l.Discharge("C08/S2-no-crash", "parser#cursor", "", why, true)
